@@ -98,6 +98,8 @@ def collect(results, corr, failures, prop):
         corr.count(f"fn:{c['fn']}")
         if aspect(c) >= 1e4:
             corr.count("domain_aspect_ratio>=1e4")
+        if any(abs(a) >= 100 * (b - a) for a, b in c["bbox"]):
+            corr.count("domain_far_from_origin")
         for k, v in r["stats"].items():
             corr.count(k, int(v))
         if r["err"]:
@@ -173,7 +175,7 @@ def run(ctx):
     return core.conclude(
         ctx, proof, [corr], failures,
         rule="seeded LearnerND histories: dims 2 and 3, rectangular (5 magnitudes per axis, aspect ratio <= 160, plus a rare "
-             "1e6 aspect) and ConvexHull domains, default_loss / uniform_loss / std_loss, scalar and 2-/3-vector outputs, 5 functions "
+             "1e6 aspect; 20% translated by 200-1000 domain sizes along some axes) and ConvexHull domains, default_loss / uniform_loss / std_loss, scalar and 2-/3-vector outputs, 5 functions "
              "(smooth, peaked, constant, large linear, tiny variation); ops: ask 1-6 points committing or not, shuffled "
              "partial tells, unsuggested random and lattice points, tell_pending, re-tells, remove_unfinished (30% of the "
              "histories), loss; preceded by the scripted corpus of minimised findings (lnd_drive.CORPUS); non-trivial = "
